@@ -49,12 +49,13 @@ func c11Scenarios(thorough bool) []*scenario {
 		)
 	}
 	out = append(out,
-		mk("mgmt-mix[]", "", []cop{add("w", "x", false), ls}, []cop{rm("v")}, []cop{sa("u", true), a("u", "o")}),
+		mk("mgmt-mix[]", "", []cop{add("w", "x", false), ls}, []cop{rm("v")}, []cop{sa("u", true)}),
 		mk("add-race[]", "", []cop{add("w", "x", false), a("w", "y")}, []cop{add("w", "y", true), a("w", "x")}),
 		mk("two-updates[]", "", []cop{upd("u", "n1"), a("u", "n2")}, []cop{upd("u", "n2"), a("u", "n1")}),
 	)
 	if thorough {
 		out = append(out,
+			mk("mgmt-mix-auth[]", "", []cop{add("w", "x", false), ls}, []cop{rm("v")}, []cop{sa("u", true), a("u", "o")}),
 			mk("mgmt-mix-full[]", "", []cop{add("w", "x", false), ls}, []cop{rm("v"), ls}, []cop{sa("u", true), a("u", "o")}),
 			mk("two-logins-update[local]", "local", []cop{a("u", "o"), upd("u", "n")}, []cop{a("u", "o"), a("u", "n")}),
 			mk("four-clients[local]", "local", []cop{upd("u", "n")}, []cop{a("u", "o")}, []cop{rm("u")}, []cop{a("u", "n")}),
